@@ -128,7 +128,7 @@ def relations(out, m, A, B, Cu, mag, k, where, strict, tol_rt, tol_route, prop="
         f1, f2 = _frac(kab.magnitude), _frac((ab * k).magnitude)
         if f1 is None or f2 is None:
             out.inconclusive = "float-range"
-        elif _rel(f1, f2) > 1e-9 and not (abs(f1) < Fraction(1, 10**250) or abs(f2) < Fraction(1, 10**250)):
+        elif _rel(f1, f2) > 1e-12 and not (abs(f1) < Fraction(1, 10**250) or abs(f2) < Fraction(1, 10**250)):
             out.fail(f"{prop}:linear:{where}", f"conv({k!r}*q) = {kab.magnitude!r} but {k!r}*conv(q) = {(ab * k).magnitude!r} for q = {mag!r} {A} -> {B}")
     # (i) conversion to the own unit
     aa, e3 = _conv(q, A)
